@@ -11,6 +11,8 @@
 //! * `line-seq`      – every sequence of <= 4 line kinds (records stating / inheriting everything,
 //!                     multi-line records, `$ORIGIN`, `$TTL`, `$INCLUDE`, blank / white-space /
 //!                     comment lines): state carried over every pair of consecutive line kinds;
+//! * `text-limits`   – content alphabet {1..4-octet characters, `\DDD`, `\"`, `\\`} x OCTET length
+//!                     {254..257} for every length-limited text field, labels and names;
 //! * `must-reject`   – certainly malformed text (the statement: "yields a parse error"): the
 //!                     parser must return Err — and nothing may be loaded after an error.
 //!                     Only COUNTED (the text still denotes exactly one record unambiguously and
@@ -641,6 +643,184 @@ fn must_reject(w: &World, out: &mut Vec<ACase>) {
 }
 
 // ------------------------------------------------------------------------------------------
+// text-limits: CONTENT ALPHABET x LENGTH for every length-limited text field
+
+/// (name, text written inside the field, octets it denotes, usable unquoted)
+const UNITS: [(&str, &str, &[u8], bool); 7] = [
+    ("ascii", "x", b"x", true),
+    ("2-octet-utf8", "\u{e9}", "\u{e9}".as_bytes(), true),
+    ("3-octet-utf8", "\u{20ac}", "\u{20ac}".as_bytes(), true),
+    ("4-octet-utf8", "\u{1f980}", "\u{1f980}".as_bytes(), true),
+    // RFC 1035 5.1: \DDD is the octet with DECIMAL value DDD: 4 characters, 1 octet
+    ("DDD-escape", "\\200", &[200], false),
+    ("escaped-quote", "\\\"", b"\"", false),
+    ("escaped-backslash", "\\\\", b"\\", false),
+];
+
+/// Field text and content of exactly `octets` octets: as many units as fit, ASCII pad in front.
+fn fill(unit: usize, octets: usize) -> (String, Vec<u8>) {
+    let (_, text, bytes, _) = UNITS[unit];
+    let n = octets / bytes.len();
+    let pad = octets - n * bytes.len();
+    let mut t = "p".repeat(pad);
+    let mut b = vec![b'p'; pad];
+    for _ in 0..n {
+        t.push_str(text);
+        b.extend_from_slice(bytes);
+    }
+    (t, b)
+}
+
+/// Every length-limited text field x content unit {1..4-octet characters, `\DDD`, `\"`, `\\`}
+/// x OCTET length {254, 255, 256, 257} x quoted / unquoted. The limit counts OCTETS after
+/// unescaping: within it the field loads to exactly those octets, beyond it the text is
+/// malformed (Err). Labels: 62..65 octets with escaped dots (3 characters per 2 octets), names of
+/// 254..257 octets whose text is longer than their octets; owner, RDATA name, `$ORIGIN` argument.
+fn text_limits(w: &World, out: &mut Vec<ACase>) {
+    use hickory_proto::rr::rdata::{CAA, HINFO, MX, NAPTR, TXT, A};
+    use hickory_proto::rr::RData;
+    let o = OriginArg::Fqdn(w.origin.clone());
+    let owner = {
+        let mut v = labels(&["a"]);
+        v.extend(w.origin.clone());
+        hname(&v)
+    };
+    let rec = |rd: RData| Record::from_rdata(owner.clone(), 300, rd);
+    // field -> (limit in octets or None, builder of (rdata text, expected rdata) from (token text, content))
+    type Build = Box<dyn Fn(&str, &[u8]) -> (String, RData)>;
+    let bx = |b: &[u8]| b.to_vec().into_boxed_slice();
+    let fields: Vec<(&str, Option<usize>, bool, Build)> = vec![
+        ("TXT.single", Some(255), false, Box::new(|t, c| (format!("TXT {t}"), RData::TXT(TXT::from_bytes(vec![c]))))),
+        ("TXT.last-of-three", Some(255), false, Box::new(|t, c| (format!("TXT s1 \"\" {t}"), RData::TXT(TXT::from_bytes(vec![b"s1", b"", c]))))),
+        ("TXT.first-of-two", Some(255), false, Box::new(|t, c| (format!("TXT {t} s2"), RData::TXT(TXT::from_bytes(vec![c, b"s2"]))))),
+        ("HINFO.cpu", Some(255), false, Box::new(move |t, c| (format!("HINFO {t} os"), RData::HINFO(HINFO::from_bytes(bx(c), bx(b"os")))))),
+        ("HINFO.os", Some(255), false, Box::new(move |t, c| (format!("HINFO cpu {t}"), RData::HINFO(HINFO::from_bytes(bx(b"cpu"), bx(c)))))),
+        // NAPTR flags: only [A-Za-z0-9] (ASCII unit only)
+        ("NAPTR.flags", Some(255), true, Box::new(move |t, c| (format!("NAPTR 1 2 {t} s \"\" ."), RData::NAPTR(NAPTR::new(1, 2, bx(c), bx(b"s"), bx(b""), Name::root()))))),
+        ("NAPTR.services", Some(255), false, Box::new(move |t, c| (format!("NAPTR 1 2 f {t} \"\" ."), RData::NAPTR(NAPTR::new(1, 2, bx(b"f"), bx(c), bx(b""), Name::root()))))),
+        ("NAPTR.regexp", Some(255), false, Box::new(move |t, c| (format!("NAPTR 1 2 f s {t} ."), RData::NAPTR(NAPTR::new(1, 2, bx(b"f"), bx(b"s"), bx(c), Name::root()))))),
+        // CAA value: not length-prefixed on the wire (RFC 8659 4.1: the rest of the RDATA): no 255 limit
+        ("CAA.value", None, false, Box::new(|t, c| {
+            let mut caa = CAA::new_issue(false, None, vec![]);
+            caa.tag = "issue".into();
+            caa.value = c.to_vec();
+            (format!("CAA 0 issue {t}"), RData::CAA(caa))
+        })),
+        // CAA tag: one length octet, [a-z0-9] (ASCII unit only)
+        ("CAA.tag", Some(255), true, Box::new(|t, c| {
+            let mut caa = CAA::new_issue(false, None, vec![]);
+            caa.tag = String::from_utf8_lossy(c).to_string();
+            caa.value = b"v".to_vec();
+            (format!("CAA 0 {t} v"), RData::CAA(caa))
+        })),
+    ];
+    for (fname, limit, ascii_only, build) in &fields {
+        for (u, (uname, _, _, unquotable)) in UNITS.iter().enumerate() {
+            if *ascii_only && u != 0 {
+                continue;
+            }
+            for octets in [254usize, 255, 256, 257] {
+                let (text, content) = fill(u, octets);
+                for quoted in [true, false] {
+                    if !quoted && !*unquotable {
+                        continue;
+                    }
+                    let tok = if quoted { format!("\"{text}\"") } else { text.clone() };
+                    let (rd_text, rdata) = build(&tok, &content);
+                    let within = limit.map(|l| octets <= l).unwrap_or(true);
+                    out.push(ACase {
+                        family: "text-limits",
+                        scene: format!("{fname}:unit={uname}:{}", if within { "within-limit" } else { "beyond-limit" }),
+                        text: format!("a.ex.test. 300 IN {rd_text}\n"),
+                        origin: o.clone(),
+                        want: if within { Want::Records(vec![rec(rdata)]) } else { Want::Reject },
+                        files: vec![],
+                    });
+                }
+            }
+        }
+    }
+    // labels and names: escaped dots make the text longer than the octets
+    let lab = |octets: usize, escaped: bool| -> (String, Vec<u8>) {
+        if !escaped {
+            return ("l".repeat(octets), vec![b'l'; octets]);
+        }
+        // "a" then "\.a" pairs; an odd remainder is padded with "a"
+        let mut t = String::from("a");
+        let mut b = vec![b'a'];
+        while b.len() + 2 <= octets {
+            t.push_str("\\.a");
+            b.extend_from_slice(b".a");
+        }
+        while b.len() < octets {
+            t.push('a');
+            b.push(b'a');
+        }
+        (t, b)
+    };
+    let mut name_cases: Vec<(String, String, Vec<Vec<u8>>)> = vec![]; // (scene, absolute name text, labels)
+    for escaped in [false, true] {
+        let k = if escaped { "escaped-dot" } else { "ascii" };
+        for octets in [62usize, 63, 64, 65] {
+            let (t, b) = lab(octets, escaped);
+            let mut ls = vec![b];
+            ls.extend(w.origin.clone());
+            name_cases.push((format!("label:unit={k}:{}", if octets <= 63 { "within-limit" } else { "beyond-limit" }), format!("{t}.ex.test."), ls));
+        }
+        // whole names: three labels of 63 + one of n octets + "ex.test." (9 with the root): 3*64 + (n+1) + 8 + 1
+        for total in [254usize, 255, 256, 257] {
+            let last = total - (3 * 64 + 8 + 1) - 1;
+            let mut text = String::new();
+            let mut ls = vec![];
+            for _ in 0..3 {
+                let (t, b) = lab(63, escaped);
+                text.push_str(&t);
+                text.push('.');
+                ls.push(b);
+            }
+            let (t, b) = lab(last, escaped);
+            text.push_str(&t);
+            text.push_str(".ex.test.");
+            ls.push(b);
+            ls.extend(w.origin.clone());
+            name_cases.push((format!("name:unit={k}:{}", if total <= 255 { "within-limit" } else { "beyond-limit" }), text, ls));
+        }
+    }
+    for (scene, text, ls) in &name_cases {
+        let within = scene.ends_with("within-limit");
+        let valid_name = || hname(ls);
+        // owner, absolute and relative to the origin
+        for (form, t) in [("absolute", text.clone()), ("relative", text.trim_end_matches("ex.test.").trim_end_matches('.').to_string())] {
+            out.push(ACase {
+                family: "text-limits",
+                scene: format!("owner.{form}:{scene}"),
+                text: format!("{t} 300 IN A 192.0.2.1\n"),
+                origin: o.clone(),
+                want: if within { Want::Records(vec![Record::from_rdata(valid_name(), 300, RData::A(A::new(192, 0, 2, 1)))]) } else { Want::Reject },
+                files: vec![],
+            });
+            out.push(ACase {
+                family: "text-limits",
+                scene: format!("rdata-name.{form}:{scene}"),
+                text: format!("a.ex.test. 300 IN MX 1 {t}\n"),
+                origin: o.clone(),
+                want: if within { Want::Records(vec![rec(RData::MX(MX::new(1, valid_name())))]) } else { Want::Reject },
+                files: vec![],
+            });
+        }
+        // as the $ORIGIN argument, used by `@`
+        out.push(ACase {
+            family: "text-limits",
+            scene: format!("$ORIGIN-argument:{scene}"),
+            text: format!("$ORIGIN {text}\n@ 300 IN A 192.0.2.1\n"),
+            origin: o.clone(),
+            want: if within { Want::Records(vec![Record::from_rdata(valid_name(), 300, RData::A(A::new(192, 0, 2, 1)))]) } else { Want::Reject },
+            files: vec![],
+        });
+    }
+}
+
+// ------------------------------------------------------------------------------------------
 
 pub fn cases(w: &World, thorough: bool) -> Vec<ACase> {
     let mut out = vec![];
@@ -651,6 +831,7 @@ pub fn cases(w: &World, thorough: bool) -> Vec<ACase> {
     svc_params(w, &mut out);
     line_seq(w, if thorough { 4 } else { 3 }, &mut out);
     must_reject(w, &mut out);
+    text_limits(w, &mut out);
     out
 }
 
@@ -753,7 +934,7 @@ pub fn run(ctx: &Ctx, w: &World, base: &Path, thorough: bool) -> u64 {
             run_case(i as usize, &cs, dir, l);
         },
     );
-    for f in ["paren-pos", "mnemonic-case", "value-forms", "origin-knob", "svc-params", "line-seq"] {
+    for f in ["paren-pos", "mnemonic-case", "value-forms", "origin-knob", "svc-params", "line-seq", "text-limits"] {
         if ctx.outcome_count(&format!("audit:{f}:ok")) == 0 {
             ctx.machinery_failure(&format!("vacuous: audit family {f} has no accepted file"));
         }
